@@ -62,13 +62,23 @@ pub fn pnm_str(t: &Tup) -> String {
 pub static API_ALLOCS: std::sync::atomic::AtomicU64 = std::sync::atomic::AtomicU64::new(0);
 pub static API_CALLS: std::sync::atomic::AtomicU64 = std::sync::atomic::AtomicU64::new(0);
 
+thread_local! {
+    /// same count, per thread: lets a system attribute an allocation to the transition it is executing
+    pub static TL_API_ALLOCS: std::cell::Cell<u64> = const { std::cell::Cell::new(0) };
+}
+
 #[inline]
 pub fn monitored<R>(f: impl FnOnce() -> R) -> R {
     let (r, n) = xs::alloc::region(f);
     if n > 0 {
         API_ALLOCS.fetch_add(n, Ordering::Relaxed);
+        TL_API_ALLOCS.with(|c| c.set(c.get() + n));
     }
     r
+}
+
+pub fn tl_api_allocs() -> u64 {
+    TL_API_ALLOCS.with(|c| c.get())
 }
 
 /// Uniform view of the three real scanners.
@@ -234,6 +244,8 @@ pub struct Report {
     pub reset: bool,
     pub dup: bool,
     pub repr: bool,
+    /// C18: a heap allocation inside a real feed/poll/reset call made by this transition
+    pub alloc: bool,
 }
 
 /// Reference model of a clock-free scanner on one channel.
@@ -355,42 +367,8 @@ impl<O: PlainOracle> PlainSys<O> {
     }
 }
 
-impl<O: PlainOracle> System for PlainSys<O> {
-    type State = PState<O>;
-    type Action = PAct;
-    type Key = O::M;
-
-    fn pid(&self) -> String {
-        self.pid.to_string()
-    }
-    fn name(&self) -> String {
-        format!("{}x{}[ch={},|alphabet|={},probes={},transparent={}]", <O::Sc as Scanner>::NAME, "refmodel", self.ch, self.alphabet.len(), self.probes.len(), self.noncontrib.len())
-    }
-    fn init(&self) -> PState<O> {
-        PState {
-            sc: <O::Sc as Default>::default(),
-            m: self.oracle.init(),
-        }
-    }
-    fn actions(&self, _s: &PState<O>, out: &mut Vec<PAct>) {
-        for &(c, v) in &self.alphabet {
-            out.push(PAct::Cc(c, v));
-        }
-        if self.with_reset {
-            out.push(PAct::Reset);
-            out.push(PAct::ResetProbe);
-        }
-        for i in 0..self.others.len() {
-            out.push(PAct::Other(i as u32));
-        }
-        for &(c, v) in &self.probes {
-            out.push(PAct::CcProbe(c, v));
-        }
-        for i in 0..self.noncontrib.len() {
-            out.push(PAct::Transparent(i as u32));
-        }
-    }
-    fn step(&self, s: &PState<O>, a: &PAct) -> Step<PState<O>> {
+impl<O: PlainOracle> PlainSys<O> {
+    fn step_inner(&self, s: &PState<O>, a: &PAct) -> Step<PState<O>> {
         match a {
             PAct::Cc(c, v) => self.do_cc(s, *c, *v, true),
             PAct::CcProbe(c, v) => self.do_cc(s, *c, *v, false),
@@ -472,6 +450,52 @@ impl<O: PlainOracle> System for PlainSys<O> {
                 Step { next: None, obs: 0, violations: v }
             }
         }
+    }
+}
+
+impl<O: PlainOracle> System for PlainSys<O> {
+    type State = PState<O>;
+    type Action = PAct;
+    type Key = O::M;
+
+    fn pid(&self) -> String {
+        self.pid.to_string()
+    }
+    fn name(&self) -> String {
+        format!("{}x{}[ch={},|alphabet|={},probes={},transparent={}]", <O::Sc as Scanner>::NAME, "refmodel", self.ch, self.alphabet.len(), self.probes.len(), self.noncontrib.len())
+    }
+    fn init(&self) -> PState<O> {
+        PState {
+            sc: <O::Sc as Default>::default(),
+            m: self.oracle.init(),
+        }
+    }
+    fn actions(&self, _s: &PState<O>, out: &mut Vec<PAct>) {
+        for &(c, v) in &self.alphabet {
+            out.push(PAct::Cc(c, v));
+        }
+        if self.with_reset {
+            out.push(PAct::Reset);
+            out.push(PAct::ResetProbe);
+        }
+        for i in 0..self.others.len() {
+            out.push(PAct::Other(i as u32));
+        }
+        for &(c, v) in &self.probes {
+            out.push(PAct::CcProbe(c, v));
+        }
+        for i in 0..self.noncontrib.len() {
+            out.push(PAct::Transparent(i as u32));
+        }
+    }
+    fn step(&self, s: &PState<O>, a: &PAct) -> Step<PState<O>> {
+        let before = tl_api_allocs();
+        let mut r = self.step_inner(s, a);
+        let n = tl_api_allocs() - before;
+        if self.report.alloc && n > 0 {
+            r.violations.push(self.vio("no-heap-allocation", "scanner-call", || format!("{} heap allocation(s) inside the real scanner call(s) of action {}", n, self.render(a))));
+        }
+        r
     }
     fn key(&self, s: &PState<O>) -> O::M {
         s.m.clone()
